@@ -43,7 +43,7 @@ PATTERNS = [  # (pattern, first variable(s) that must not use PREV-based DEFINE)
     seq(alt(seq(var("A"), var("B")), var("A")), q(var("C"), 0, 1)),
 ]
 DEFKINDS = [{"k": "gt", "c": 0}, {"k": "gt", "c": 1}, {"k": "lt", "c": 2}, {"k": "up", "c": 0}, {"k": "down", "c": 0}, {"k": "true", "c": 0},
-            {"k": "sumle", "c": 3}, {"k": "sumle", "c": 5}, {"k": "cntle", "c": 2}]      # history-dependent: running aggregates over the match so far
+            {"k": "sumle", "c": 3}, {"k": "sumle", "c": 5}, {"k": "cntle", "c": 2}, {"k": "up2", "c": 0}, {"k": "down2", "c": 0}]      # history-dependent: running aggregates over the match so far
 
 
 def vars_of(p, acc):
@@ -120,11 +120,11 @@ def mk(rng, interleave, nparts):
     defs, dsql = [], []
     for v in vs:
         d = dict(rng.choice(DEFKINDS))
-        while d["k"] in ("up", "down") and v in fv:
+        while d["k"] in ("up", "down", "up2", "down2") and v in fv:
             d = dict(rng.choice(DEFKINDS))
         if d["k"] == "true": continue
         defs.append({"v": v, "k": d["k"], "c": d["c"] * 10000})
-        dsql.append({"gt": "%s AS v > %d" % (v, d["c"]), "lt": "%s AS v < %d" % (v, d["c"]), "up": "%s AS v > PREV(v, 1)" % v, "down": "%s AS v < PREV(v, 1)" % v,
+        dsql.append({"gt": "%s AS v > %d" % (v, d["c"]), "lt": "%s AS v < %d" % (v, d["c"]), "up": "%s AS v > PREV(v, 1)" % v, "down": "%s AS v < PREV(v, 1)" % v, "up2": "%s AS v > PREV(v, 2)" % v, "down2": "%s AS v < PREV(v, 2)" % v,
                      "sumle": "%s AS SUM(v) <= %d" % (v, d["c"]), "cntle": "%s AS COUNT(*) <= %d" % (v, d["c"])}[d["k"]])
     if not dsql:
         v = vs[0]; defs.append({"v": v, "k": "gt", "c": 0}); dsql.append("%s AS v > 0" % v)
